@@ -5,7 +5,7 @@
    Only statements, each closed by `exact <lemma>`, and Print Assumptions. *)
 From Coq Require Import NArith ZArith List.
 From MiV Require Import Gen.Consts Gen.Bins Model.Arith Model.CSem Gen.Funcs Proofs.Base Proofs.ArithSweeps Proofs.GenEquiv.
-From MiV Require Model.Span Model.Bitmap.
+From MiV Require Model.Span Model.Bitmap Model.Bind.
 Local Open Scope N_scope.
 
 (* ---- one equivalence theorem per translated function ---- *)
@@ -170,6 +170,37 @@ Print Assumptions C16gen_segment_calculate_slices_eq.
 Theorem C16gen_segment_calculate_slices_ok : forall required, c_mi_segment_calculate_slices_ok required = true.
 Proof. exact c_mi_segment_calculate_slices_ok_all. Qed.
 Print Assumptions C16gen_segment_calculate_slices_ok.
+
+(* arena ids and arena block arithmetic (models of Model/Bind.v, used by C14/C15); `int` values are Z,
+   "no signed overflow" is part of the _ok twin *)
+Theorem C16gen_arena_id_none_eq : c__mi_arena_id_none = Bind.arena_id_none.
+Proof. exact c__mi_arena_id_none_eq. Qed.
+Print Assumptions C16gen_arena_id_none_eq.
+
+Theorem C16gen_arena_id_index_eq : forall id, (- 2 ^ 31 <= id < 2 ^ 31)%Z ->
+  c_mi_arena_id_index id = Bind.arena_id_index id /\ c_mi_arena_id_index_ok id = true.
+Proof. exact c_mi_arena_id_index_eq. Qed.
+Print Assumptions C16gen_arena_id_index_eq.
+
+Theorem C16gen_arena_id_create_eq : forall idx, idx < MI_MAX_ARENAS ->
+  c_mi_arena_id_create idx = Bind.arena_id_create idx /\ c_mi_arena_id_create_ok idx = true.
+Proof. exact c_mi_arena_id_create_eq. Qed.
+Print Assumptions C16gen_arena_id_create_eq.
+
+Theorem C16gen_arena_id_is_suitable_eq : forall aid ex req,
+  c_mi_arena_id_is_suitable aid ex req = Bind.arena_id_is_suitable aid ex req.
+Proof. exact c_mi_arena_id_is_suitable_eq. Qed.
+Print Assumptions C16gen_arena_id_is_suitable_eq.
+
+Theorem C16gen_block_count_of_size_eq : forall size, size < W64 ->
+  c_mi_block_count_of_size size = Bind.block_count_of_size size /\ c_mi_block_count_of_size_ok size = true.
+Proof. exact c_mi_block_count_of_size_eq. Qed.
+Print Assumptions C16gen_block_count_of_size_eq.
+
+Theorem C16gen_arena_block_size : forall bcount, bcount * MI_ARENA_BLOCK_SIZE < W64 ->
+  c_mi_arena_block_size bcount = bcount * MI_ARENA_BLOCK_SIZE.
+Proof. exact c_mi_arena_block_size_spec. Qed.
+Print Assumptions C16gen_arena_block_size.
 
 (* ---- the main C16 laws, directly about the generated functions and the generated size table ---- *)
 Theorem C16gen_bin_size_ge : forall s, s <= MI_MEDIUM_OBJ_SIZE_MAX ->
